@@ -69,4 +69,9 @@ def hashToGroup (H : Bytes → Bytes) (input dst : Bytes) : Option (Pt L4) :=
 def order : Bytes := [255, 255, 255, 255, 255, 255, 255, 255, 255, 255, 255, 255, 255, 255, 255, 254,
   186, 174, 220, 230, 175, 72, 160, 59, 191, 210, 94, 140, 208, 54, 65, 65]
 
+/-- `Ciphersuite()`, `ScalarLength()`, `ElementLength()` -/
+def ciphersuite : String := "secp256k1_XMD:SHA-256_SSWU_RO_"
+def scalarLength : Nat := 32
+def elementLength : Nat := 33
+
 end Hand.Group
